@@ -197,8 +197,16 @@ func sharedTypeName(t types.Type) string {
 			t = u.Elem()
 			continue
 		case *types.Slice:
-			if _, ok := u.Elem().(*types.Named); ok {
-				t = u.Elem()
+			e := u.Elem()
+			for {
+				if p, ok := e.(*types.Pointer); ok {
+					e = p.Elem()
+					continue
+				}
+				break
+			}
+			if _, ok := e.(*types.Named); ok {
+				t = e
 				continue
 			}
 		}
@@ -255,12 +263,23 @@ var extReadOnly = map[string]bool{
 	"bytes.Equal": true, "bytes.Compare": true, "bytes.HasPrefix": true, "bytes.IndexByte": true,
 	"errors.New": true, "strings.Join": true,
 	"encoding/binary.Uvarint": true, "encoding/binary.Varint": true,
+	// wrappers: the result aliases the argument (tracked), the call itself writes nothing
+	"bytes.NewReader": true, "bytes.NewBuffer": true, "encoding/gob.NewEncoder": true, "encoding/gob.NewDecoder": true,
+	"bufio.NewReader": true, "bufio.NewWriter": true, "text/tabwriter.NewWriter": true,
+	// a bytes.Reader only reads the slice it wraps (its own position is fresh state)
+	"bytes.Reader.ReadByte": true,
 }
-var extWritesOnly = map[string]int{ // only this argument (0-based, receiver = -1) is written
-	"fmt.Fprint": 0, "fmt.Fprintf": 0, "fmt.Fprintln": 0, "io.WriteString": 0,
-	"encoding/binary.PutUvarint": 0, "encoding/binary.PutVarint": 0,
-	"sort.Ints": 0, "sort.Slice": 0, "sort.SliceStable": 0, "sort.Sort": 0, "sort.Stable": 0,
-	"io.ReadFull": -2, // both: reader state and buffer
+
+// the result is a fresh value through which the arguments cannot be written (a reader over a
+// byte slice only reads it)
+var extFreshResult = map[string]bool{"bytes.NewReader": true, "strings.NewReader": true}
+
+// only this root of the callee ("recv" or "p<i>") is written, the other arguments are read
+var extWritesOnly = map[string]string{
+	"fmt.Fprint": "p0", "fmt.Fprintf": "p0", "fmt.Fprintln": "p0", "io.WriteString": "p0",
+	"encoding/binary.PutUvarint": "p0", "encoding/binary.PutVarint": "p0",
+	"sort.Ints": "p0", "sort.Slice": "p0", "sort.SliceStable": "p0", "sort.Sort": "p0", "sort.Stable": "p0",
+	"encoding/gob.Encoder.Encode": "recv", "text/tabwriter.Writer.Flush": "recv",
 }
 
 // retRoots[f] = the callee roots ("recv", "p<i>") and foreign roots ("g:...", "dyn", ...) a
@@ -720,7 +739,16 @@ func (a *analyser) callResultTaint(x *ast.CallExpr) *tinfo {
 			if base != nil {
 				r = base.clone()
 			}
-			for _, arg := range x.Args[1:] {
+			for i, arg := range x.Args[1:] {
+				if x.Ellipsis.IsValid() && i == len(x.Args)-2 {
+					// append(a, b...) copies the elements of b: only reference-typed elements alias
+					if st, ok := a.typeOf(arg).Underlying().(*types.Slice); ok && !isRefType(st.Elem()) {
+						continue
+					}
+					if bt, ok := a.typeOf(arg).Underlying().(*types.Basic); ok && bt.Info()&types.IsString != 0 {
+						continue
+					}
+				}
 				if t := a.refArg(arg); t != nil {
 					if r == nil {
 						r = &tinfo{roots: map[string]types.Type{}, own: 1}
@@ -756,6 +784,9 @@ func (a *analyser) callResultTaint(x *ast.CallExpr) *tinfo {
 		return r
 	case ckExternal:
 		if t := a.typeOf(x); t != nil && !isRefType(t) {
+			return nil
+		}
+		if extFreshResult[ci.name] {
 			return nil
 		}
 		return allArgs()
@@ -962,6 +993,12 @@ func (a *analyser) collectAliases(body ast.Node) {
 
 func (a *analyser) writeThrough(t *tinfo, label string) {
 	for r, ty := range t.roots {
+		if ty != nil {
+			// a function value cannot be written through, only called (see writeThroughCall)
+			if _, isFn := ty.Underlying().(*types.Signature); isFn {
+				continue
+			}
+		}
 		a.fi.dwrites[r] = true
 		if strings.HasPrefix(r, "g:") {
 			a.fi.gwrites[strings.TrimPrefix(r, "g:")] = true
@@ -969,6 +1006,26 @@ func (a *analyser) writeThrough(t *tinfo, label string) {
 		}
 		a.fi.swrites[label+sharedTypeName(ty)] = true
 	}
+}
+
+// writeThroughCall: a callee outside the analysis may write through the value it is handed.  A
+// function value cannot be written through (it can only be called; what a user supplied
+// callback does is the documented assumption of C19), so roots of function type are skipped.
+func (a *analyser) writeThroughCall(t *tinfo) bool {
+	u := &tinfo{roots: map[string]types.Type{}, own: 0}
+	for r, ty := range t.roots {
+		if ty != nil {
+			if _, isFn := ty.Underlying().(*types.Signature); isFn {
+				continue
+			}
+		}
+		u.roots[r] = ty
+	}
+	if len(u.roots) == 0 {
+		return false
+	}
+	a.writeThrough(u, "")
+	return true
 }
 
 // noteWrite records an assignment to the location lhs (extra = additional dereference steps,
@@ -1146,19 +1203,21 @@ func (a *analyser) call(x *ast.CallExpr) {
 		}
 		only, restricted := extWritesOnly[ci.name]
 		for _, b := range bound {
-			if restricted && only >= 0 && b.root != fmt.Sprintf("p%d", only) {
+			if restricted && b.root != only {
 				continue
 			}
-			a.writeThrough(b.t, "")
-			a.fi.extwrites[ci.name] = true
+			if a.writeThroughCall(b.t) {
+				a.fi.extwrites[ci.name] = true
+			}
 		}
 	case ckLocalLit:
 		// body analysed in place, arguments bound in collectAliases
 	case ckDynamic:
 		a.fi.dyncalls[ci.name] = true
 		for _, b := range bound {
-			a.writeThrough(b.t, "")
-			a.fi.extwrites["callback "+ci.name] = true
+			if a.writeThroughCall(b.t) {
+				a.fi.extwrites["callback "+ci.name] = true
+			}
 		}
 	}
 }
